@@ -55,8 +55,8 @@ def run(ctx):
         ctx.broke("correspondence:cpp-build (ManagedFilter.h with recording Impl does not compile)", ctx.extra.get("cpp_build_error"))
     else:
         cpp = {}
-        for combo in (0, 1, 2):
-            jobs = [(3 * k + combo, cur, [{"out": tgt, "readings": []}]) for k, cur, tgt in triples]
+        for combo in rh.COMBOS:
+            jobs = [(rh.NCOMBO * k + combo, cur, [{"out": tgt, "readings": []}]) for k, cur, tgt in triples]
             cpp[combo] = rh.cpp_run(exe, jobs)
     for i, (k, cur, tgt) in enumerate(triples):
         m = rh.MAXDTS[k]
